@@ -46,7 +46,16 @@ R3  1, 3 (canonical summary of each scanner: search range, start term, header po
     three-valued evaluation of the dominating conditions per Machine value of the code's/reference vocabulary plus one
     "any other value" case whose comparisons with constants outside the vocabulary stay unknown), 6 (literal dict
     lookups on the Machine field - displays and module-level constant tables - resolved per case; the optional-header
-    variant of a selected struct type is the table row / branch of the case).
+    variant of a selected struct type is the table row / branch of the case); EXIT "a rejected candidate does not end the
+    scan": 1 (the exits of the candidate loop on the syntax tree: return, raise, a break bound to this loop) + 2 (the
+    branch edges *inside the loop* that dominate the exit, through the definitions the tested values were traced through)
+    + 5 (case distinction on FILE.Machine: a return whose value is None in a case that reaches it, or a break / raise
+    reached by a case other than x86/x64, ends the search at a candidate the other scanners skip; tests on e_lfanew stay
+    symbolic; a case that only *may* reach the exit, or an exit under a condition that is not on the candidate's headers,
+    is undecided); an exit in an exception handler is located-and-wrong only when the handler guards the file header
+    parse (its position comes from the candidate's own e_lfanew), otherwise undecided; lemma L10.  A local that is
+    returned after the loop (`found = None` ... `found = <hit>; break` ... `return found`) is traced to the definitions
+    that flow into it (3), so that shape is judged like the early return.
 R4  6 (the two version tables are read as constant dict displays and checked completely: every value is parsed with
     the checker's own format parser - the analysed data are constants of the tables, no code of the package is involved -
     keys unique, (version, date) monotone in key order, releases contiguous).
@@ -60,7 +69,15 @@ R5  precedence: 3 (path-wise value flow through BeaconConfig.version; the return
     named groups, digit classes, repeat bounds, the optional sub-pattern, literal separators; the repeat bounds are
     compared with the component widths found in the two tables; lemma L4); constructor: 3 + 5 (path-wise value flow
     with the match object symbolic; cases: optional group took part / did not; lemmas L4, L5); terms compared
-    structurally.
+    structurally; ALIAS "version follows the current export stamp": 1 (instance attributes the property assigns,
+    memoising decorators; who-may-write over the package for every instance attribute the stored term or its path
+    condition reads) + 3/5 (path-wise value flow in two abstract cases: the freshly constructed object - the assigned
+    attribute has the constant the constructor gives it; this is also the case in which the precedence is analysed - and
+    "a result is stored" - the attribute is not None: does a return hand out the stored attribute without
+    recomputation?).  Violated when a stored result is reused although a plain attribute it was computed from is
+    assigned after construction somewhere in the package and nothing else resets the store; undecided when the store is
+    reset elsewhere, when the reuse is conditional on other attributes, or when no such assignment exists (clients may
+    still assign).
 R6  1, 3 (the reads that flow into the returned pair; positions and lengths as polynomials; accumulating loops and
     `sum(..)` over the section table summarised once as a symbolic SUM atom - no unrolling), 2 + 4 (the prepend read is
     dominated by a fact that excludes image base 0: nonzero/interval reasoning on the dominating facts, lemma L6),
@@ -82,6 +99,9 @@ L8  comparisons of a value known to be >= 0 with an integer literal are decided 
 L9  every entry of the two version tables is a string of the table format (R4 checks every row), hence non-empty, not
     None and different from 'Unknown': `T.get(k) or d` equals `T.get(k, d)`, an entry is truthy, and in `a or b` nothing
     after a truthy constant is reached.
+L10 a raised exception is handled by an `except C` clause exactly when its class is a subclass of C; for builtin exception
+    classes the hierarchy is CPython's (read from the `builtins` module of the checker's interpreter, no analysed code
+    involved); anything else may be handled.
 """
 
 from __future__ import annotations
@@ -135,7 +155,12 @@ def run(ctx):
         "are decided by path-wise value flow with symbolic terms, one walk per abstract outcome of the code's own tests "
         "(export stamp None/0/non-zero, and the key of the deciding table lookup present/absent: with an export stamp the "
         "version is the table entry for it or 'Unknown', never an estimate from the setting index; patch group took part or "
-        "not; each DOS stub found or not). Tables keyed by the Machine field (dict displays, module-level constant dicts, "
+        "not; each DOS stub found or not). In both scanners every exit from the candidate loop is judged in the Machine "
+        "case distinction: a candidate that is not reported falls through to the next offset (no return of None, break or "
+        "raise for it), so prepended bytes that form a false candidate cannot hide the image from one scanner only. The "
+        "version property is also checked for reuse of a stored result (attribute assigned by the property, memoising "
+        "decorator): a stored version may not be handed out again when an attribute it was computed from is assigned "
+        "after construction anywhere in the package (who-may-write). Tables keyed by the Machine field (dict displays, module-level constant dicts, "
         "read-only proxies) and struct types selected through them are resolved per Machine case. No analysed code is "
         "run on concrete data and no string is matched against the analysed regex."
     )
@@ -147,6 +172,9 @@ def run(ctx):
         "headers parsed through a callee that is neither a struct type nor selected among struct types by a conditional expression / literal table on the Machine field (getattr, computed names): undecided",
         "a version built in another way than from the two lookups / `.get` / `[]` / `or` on the two tables (string comparisons on the result, helper objects): undecided",
         "module-level tables that are modified after their definition (the display is taken as the table)",
+        "exits from the candidate loop under conditions that are not on the candidate's DOS/file header, or in an exception handler that does not guard the file header parse: undecided",
+        "a stored version that is reset elsewhere in the package, reused only under conditions on other attributes, or computed from attributes no package code assigns after construction: undecided",
+        "stores other than instance attributes / the decorators cached_property, lru_cache, cache (dict caches, __dict__, getattr defaults): the returned value is then not recognised and the version obligations are undecided",
     ]
     rep.trusted_base = [
         "CPython ast", "C-definition parser", "PE/COFF reference layout in csverif/tables.py", "SymPoly normal form",
@@ -161,6 +189,9 @@ def run(ctx):
         "L7: bytes.find gives -1 when absent and an index >= 0 when present; x in b <=> b.find(x) >= 0; b.index(x) == b.find(x) when present",
         "L8: a value >= 0 compared with an integer literal is decided by the literal's sign where that suffices, else both outcomes are followed",
         "L9: every version-table entry has the table format (R4), so it is a non-empty string different from 'Unknown': T.get(k) or d == T.get(k, d)",
+        "L10: an exception is handled by `except C` exactly when its class is a subclass of C (builtin classes: CPython's hierarchy); anything else may be handled",
+        "the state of a freshly constructed BeaconConfig: an attribute has the single constant its constructor assigns (used as the first-access case of the version property)",
+        "an instance attribute that some function of the package assigns outside the constructor can change between two accesses of the version property",
         "contract of the two lookups used by the precedence rule: from_pe_export_stamp(k) / from_max_setting_enum(k) is T.get(k, 'Unknown') (obligations `<table>.get(<argument>, 'Unknown')`)",
     ]
     rep.exhaustive = True
@@ -602,7 +633,7 @@ class _View:
 
     def _scan_base(self):
         cn = self.cn
-        out = dict(B=None, A=None, M=None, status="ok", why="")
+        out = dict(B=None, A=None, M=None, loop=None, status="ok", why="")
         d = self.first("DOS")
         if d is None:
             out.update(status="undecided", why="no IMAGE_DOS_HEADER parse on the stream")
@@ -617,6 +648,7 @@ class _View:
             out.update(status="undecided", why=f"{len(loops)} candidate loops over a range")
             return out
         lo, hi, _st = cn.range_loop(loops[0].target.id)
+        out["loop"] = loops[0]
         out["M"] = cn.poly(hi) - (cn.poly(lo) if lo is not None else SymPoly())
         rest = B - SymPoly.atom(_IDX)
         A = _single_atom(rest)
@@ -1018,6 +1050,13 @@ def _conds_closure(ctx, f, cn, stmts):
     return out
 
 
+def _reported(cn, r):
+    """(defining statement, expression) of the values a return statement may report: the returned expression itself, or -
+    when a local is returned that is assigned in several places (`found = None` ... `found = <hit>; break` ... `return
+    found`) - each plain definition flowing into it that is not the None placeholder."""
+    return [(s if s is not None else r, v) for s, v in cn._origins(r.value, r) if not is_none(v)]
+
+
 def _accepts(ctx, f, cn):
     """For a scanner: {machine value: set of values returned for a candidate with that machine} over the returns that
     report a hit; the conditions are those dominating the return *and* every definition its value was traced through."""
@@ -1029,10 +1068,10 @@ def _accepts(ctx, f, cn):
         # the image is located through find_mz_offset: only the machines it accepts can be seen in the file header
         g = ctx.repo.func("pe.find_mz_offset")
         allowed = set(_accepts(ctx, g, _view(ctx, g).cn)[0])
-    for r in rets:
+    for r, site, v0 in [(r, s, v0) for r in rets for s, v0 in _reported(cn, r)]:
         cn.prov = []
-        val = cn.canon(r.value, full=True)
-        base = _conds_closure(ctx, f, cn, list(cn.prov) + [r])
+        val = cn.canon(v0, full=True)
+        base = _conds_closure(ctx, f, cn, list(cn.prov) + [r] + ([site] if site is not r else []))
         for alt, extra_c in _alts(val):
             if is_none(alt):
                 continue
@@ -1185,7 +1224,7 @@ def r2(ctx):
             for r in ctx.cfg(f).return_stmts():
                 if r.value is None or is_none(r.value):
                     continue
-                for alt, _c in _alts(cn.canon(r.value)):
+                for alt, _c in [a for _s, v0 in _reported(cn, r) for a in _alts(cn.canon(v0))]:
                     if is_none(alt):
                         continue
                     p = _poly(alt)
@@ -1340,6 +1379,174 @@ def _tested_fields(ctx, f, cn):
     return sorted(out)
 
 
+def _loop_exits(loop):
+    """(statement, kind) of the statements inside the candidate loop that leave it instead of going on to the next
+    candidate: return, raise, and a break that is bound to this loop (not to a loop nested in it)."""
+    out = []
+
+    def visit(body, inner):
+        for st in body:
+            if isinstance(st, (ast.FunctionDef, ast.AsyncFunctionDef, ast.ClassDef)):
+                continue
+            if isinstance(st, ast.Return):
+                out.append((st, "return"))
+            elif isinstance(st, ast.Raise):
+                out.append((st, "raise"))
+            elif isinstance(st, ast.Break) and not inner:
+                out.append((st, "break"))
+            for name in ("body", "orelse", "finalbody"):
+                blk = getattr(st, name, None)
+                if isinstance(blk, list) and blk and isinstance(blk[0], ast.stmt):
+                    visit(blk, inner or (name == "body" and isinstance(st, (ast.For, ast.AsyncFor, ast.While))))
+            for h in getattr(st, "handlers", None) or []:
+                visit(h.body, inner)
+            for case in getattr(st, "cases", None) or []:
+                visit(case.body, inner)
+
+    visit(loop.body, False)
+    return out
+
+
+def _loop_facts(ctx, f, cn, loop, stmts):
+    """(canonical test, polarity) of the branch edges *inside the candidate loop* that dominate the statements and,
+    transitively, the definitions the tested values were traced through.  Conditions outside the loop hold for every
+    candidate alike and say nothing about the one under inspection."""
+    cfg = ctx.cfg(f)
+    tests = [s for s in ast.walk(loop) if isinstance(s, (ast.If, ast.While)) and s is not loop and cfg.has(s)]
+    todo, seen, out = list(stmts), set(), []
+    while todo:
+        st = todo.pop()
+        if id(st) in seen or not cfg.has(st):
+            continue
+        seen.add(id(st))
+        target = cfg.node(st)
+        for s in tests:
+            pol = True if cfg.dominates(cfg.edge_node(s, "true"), target) else False if cfg.dominates(cfg.edge_node(s, "false"), target) else None
+            if pol is None:
+                continue
+            for leaf, lp in _flatten(s.test, pol):
+                cn.prov = []
+                out.append((cn.canon(leaf, full=True), lp))
+                todo.extend(cn.prov)
+    return out
+
+
+def _may_catch(tr, rs):
+    """May a handler of the try statement catch what the raise statement raises?  False only when the raised class and
+    every handler class are builtin exception classes and none of the handler classes is a base of the raised one."""
+    import builtins
+
+    def cls_of(e):
+        c = getattr(builtins, dotted(e) or "", None)
+        return c if isinstance(c, type) and issubclass(c, BaseException) else None
+
+    exc = rs.exc.func if isinstance(rs.exc, ast.Call) else rs.exc
+    raised = cls_of(exc) if exc is not None else None
+    if raised is None:
+        return True
+    for h in tr.handlers:
+        types_ = [None] if h.type is None else list(h.type.elts) if isinstance(h.type, ast.Tuple) else [h.type]
+        for t in types_:
+            c = cls_of(t) if t is not None else None
+            if c is None or issubclass(raised, c):
+                return True
+    return False
+
+
+def _mentions(e):
+    """Which candidate headers a canonical test talks about: "machine" (FILE.Machine), "header" (any other field of the
+    candidate's DOS / file header)."""
+    out = set()
+    for n in ast.walk(e):
+        if isinstance(n, ast.Attribute) and isinstance(n.value, ast.Name) and n.value.id in ("DOS", "FILE"):
+            out.add("machine" if (n.value.id, n.attr) == ("FILE", "Machine") else "header")
+        elif isinstance(n, ast.Name) and n.id in ("DOS", "FILE"):
+            out.add("header")
+    if "machine" in out:
+        out.discard("header")
+    return out
+
+
+def _scan_exits(ctx, f):
+    """R3: a candidate that is *not* reported must not end the scan.  The scanners look at every offset of the search range
+    and the image is the first candidate with 0 < e_lfanew < range and an x86/x64 Machine; bytes prepended to the stage may
+    form earlier candidates that fail one of the tests.  So inside the candidate loop (a) no return may yield None for a
+    Machine case that reaches it, (b) no break / raise may be reached by a candidate whose Machine is not x86/x64: such a
+    candidate has to fall through to the next offset.  Decided by the case distinction on FILE.Machine over the branch
+    edges inside the loop that dominate the exit (tests on e_lfanew are independent of the case and stay symbolic)."""
+    v = _view(ctx, f)
+    cn = v.cn
+    text = "a rejected candidate does not end the scan"
+    loop = v.scan().get("loop")
+    if loop is None:
+        if f.fq != "pe.find_mz_offset" and v.has_mz:
+            ctx.ob("R3", "EXIT", f, text, True, "the image is located through find_mz_offset (no candidate loop of its own)")
+        else:
+            ctx.undecided("R3", "EXIT", f, text, "candidate loop over a range not identified")
+        return
+    accepted = {tables.PE_DEFINES["IMAGE_FILE_MACHINE_AMD64"], tables.PE_DEFINES["IMAGE_FILE_MACHINE_I386"]}
+    fv = FuncView.of(f.node)
+    file_parse = v.first("FILE")
+    bad, unsure = [], []
+    for st, kind in _loop_exits(loop):
+        chain = [st] + fv.ancestors(st)
+        chain = chain[: next(i for i, n in enumerate(chain) if n is loop)]
+        handler = next((n for n in chain if isinstance(n, ast.ExceptHandler)), None)
+        if handler is not None:
+            tr = fv.parent.get(id(handler))
+            covered = file_parse is not None and isinstance(tr, ast.Try) and any(file_parse.node is n for b in tr.body for n in ast.walk(b))
+            if covered and (kind != "return" or st.value is None or is_none(cn.canon(st.value, full=True))):
+                bad.append(f"{kind} in the exception handler around the file header parse: a candidate whose file header (at an offset taken from its e_lfanew) lies beyond the data ends the scan")
+            else:
+                unsure.append(f"{kind} in an exception handler inside the loop")
+            continue
+        if kind == "raise" and any(isinstance(n, ast.Try) and any(c is b for b in n.body) and _may_catch(n, st) for c, n in zip(chain, chain[1:])):
+            unsure.append("raise inside a try block of the loop that may handle it")
+            continue
+        if kind == "return" and st.value is not None:
+            cn.prov = []
+            val = cn.canon(st.value, full=True)
+            facts = _loop_facts(ctx, f, cn, loop, list(cn.prov) + [st])
+            alts = _alts(val)
+        else:
+            facts = _loop_facts(ctx, f, cn, loop, [st])
+            alts = [(ast.Constant(value=None), [])]
+        foreign = [c for c, _p in facts if not _mentions(c) and not isinstance(c, ast.Constant)]
+        hit_yes, hit_maybe = [], []
+        for alt, sel in alts:
+            for m in _machine_values(ctx):
+                leaf = _mach_leaf(ctx, f, m)
+                status = "yes"
+                for c, pol in facts + sel:
+                    t = _tv3(c, leaf)
+                    if t is not None and t != pol:
+                        status = "no"
+                        break
+                    if t is None and "machine" in _mentions(c):
+                        status = "maybe"
+                if status == "no":
+                    continue
+                if kind == "return":
+                    if not is_none(_pick(ctx, f, alt, leaf, m)):
+                        continue  # something is reported: judged by `accepted machines` / `machine -> architecture`
+                elif m in accepted:
+                    continue  # the break of a hit
+                (hit_yes if status == "yes" else hit_maybe).append(m)
+        what = {"return": "returns None", "break": "leaves the loop (break)", "raise": "raises"}[kind]
+        if foreign and (hit_yes or hit_maybe):
+            unsure.append(f"an exit under a condition that is not on the candidate's headers ({_u(foreign[0])[:60]})")
+        elif hit_yes:
+            bad.append(f"the scan {what} at a candidate with Machine in {[_mfmt(x) for x in sorted(set(hit_yes), key=_mkey)]} instead of going on to the next offset")
+        elif hit_maybe:
+            unsure.append(f"an exit whose Machine condition is not resolved for {[_mfmt(x) for x in sorted(set(hit_maybe), key=_mkey)]}")
+    if bad:
+        ctx.ob("R3", "EXIT", f, text, False, "; ".join(bad[:3]) + " - prepended bytes that form such a candidate hide the image (the other scanners skip it)", loop)
+    elif unsure:
+        ctx.undecided("R3", "EXIT", f, text, "; ".join(unsure[:3]), loop)
+    else:
+        ctx.ob("R3", "EXIT", f, text, True, "inside the candidate loop every return reports a hit and every break is reached by x86/x64 candidates only: all other candidates fall through to the next offset", loop)
+
+
 def r3(ctx):
     a, b = ctx.repo.func("pe.find_mz_offset"), ctx.repo.func("pe.find_architecture")
     AMD64, I386 = tables.PE_DEFINES["IMAGE_FILE_MACHINE_AMD64"], tables.PE_DEFINES["IMAGE_FILE_MACHINE_I386"]
@@ -1385,6 +1592,9 @@ def r3(ctx):
         need = {Lf - SymPoly.const(1), sc["M"] - Lf - SymPoly.const(1)}
         got = _ineqs(v.cn, _dom_facts(ctx, f, fh_.node))
         ctx.ob("R3", "AGREE", f, "e_lfanew constraint", need <= got, f"file header parsed under {sorted(map(repr, got))} >= 0 (required 0 < e_lfanew < search range, i.e. {sorted(map(repr, need))} >= 0)", fh_.node)
+    # a candidate that fails a test falls through to the next offset: no exit from the candidate loop but a hit
+    for f in (a, b):
+        _scan_exits(ctx, f)
     # accepted machines / machine -> architecture: case distinction on FILE.Machine over the returns that report a hit
     acc, rets = _accepts(ctx, a, _view(ctx, a).cn)
     if not rets:
@@ -1949,6 +2159,154 @@ def _chain_text(chain):
     return ", else ".join(parts)
 
 
+def _self_attr(n, selfn):
+    return isinstance(n, ast.Attribute) and isinstance(n.value, ast.Name) and n.value.id == selfn
+
+
+def _self_stores(f):
+    """Names of the instance attributes a method assigns (`self.X = ..`, also as part of a tuple target / augmented)."""
+    ps = params(f.node)
+    if not ps:
+        return set()
+    return {n.attr for n in ast.walk(f.node) if _self_attr(n, ps[0]) and isinstance(n.ctx, ast.Store)}
+
+
+def _constructed_values(ctx, f, attrs):
+    """{'self.X': constant} for the attributes to which the constructor of the method's class assigns one constant (or
+    that are class-level constants and not assigned by the constructor): the state of a freshly constructed object."""
+    out = {}
+    if not attrs or not f.cls:
+        return out
+    ps = params(f.node)
+    cls_fq = f"{f.module.name}.{f.cls}"
+    init = ctx.repo.func(cls_fq + ".__init__") if ctx.repo.has_func(cls_fq + ".__init__") else None
+    try:
+        cattrs = ctx.repo.class_attrs(cls_fq)
+    except Exception:
+        cattrs = {}
+    for x in attrs:
+        vals = []
+        if init is not None:
+            ips = params(init.node)
+            for st in statements(init.node):
+                tgts = st.targets if isinstance(st, ast.Assign) else [st.target] if isinstance(st, (ast.AnnAssign, ast.AugAssign)) else []
+                for t in tgts:
+                    for n in ast.walk(t):
+                        if ips and _self_attr(n, ips[0]) and n.attr == x:
+                            vals.append(st.value if isinstance(st, (ast.Assign, ast.AnnAssign)) and n is t else None)
+        if not vals and x in cattrs:
+            vals = [cattrs[x]]
+        if len(vals) == 1 and isinstance(vals[0], ast.Constant):
+            out[f"{ps[0]}.{x}"] = vals[0]
+    return out
+
+
+_MEMO_DECORATORS = ("cached_property", "lru_cache", "cache")
+
+
+def _attr_writers(ctx, cls_fq, names, skip):
+    """{attribute: sorted qualified names of the package functions that assign / delete `<object>.attribute`} for objects
+    that are, or may be, instances of the class (who-may-write; an object whose static class is known to be another one
+    is left out); functions in `skip` are not looked at, nor are the constructor's assignments to its own `self`."""
+    out = {}
+    seen = set()
+    for g in ctx.repo.all_funcs():
+        if g.fq in skip:
+            continue
+        own = params(g.node)[0] if g.fq == cls_fq + ".__init__" and params(g.node) else None
+        for n in ast.walk(g.node):
+            hit = obj = None
+            if isinstance(n, ast.Attribute) and isinstance(n.ctx, (ast.Store, ast.Del)) and n.attr in names:
+                hit, obj = n.attr, n.value
+            elif isinstance(n, ast.Call) and dotted(n.func) in ("setattr", "delattr", "object.__setattr__") and len(n.args) >= 2 and isinstance(n.args[1], ast.Constant) and n.args[1].value in names:
+                hit, obj = n.args[1].value, n.args[0]
+            if hit is None or id(n) in seen:
+                continue
+            seen.add(id(n))
+            if own is not None and isinstance(obj, ast.Name) and obj.id == own:
+                continue
+            t = ctx.rs.expr_type(g, obj)
+            if t is not None and t not in (cls_fq, "type:" + cls_fq):
+                continue
+            out.setdefault(hit, set()).add(g.fq)
+    return {k: sorted(v) for k, v in out.items()}
+
+
+def _r5_freshness(ctx, f, memo, env0):
+    """The deduced version is a function of the export stamp / highest setting index the object holds *when it is asked*.
+    A result stored on the instance (an attribute the property assigns, or a memoising decorator) and handed out again
+    without recomputation is only that if nothing it was computed from can change in between: every instance attribute
+    the stored term or its path condition reads must not be assigned after construction (who-may-write over the package),
+    or the store must be reset when it is."""
+    text = "version follows the current export stamp"
+    ps = params(f.node)
+    if not ps or not f.cls:
+        ctx.undecided("R5", "ALIAS", f, text, "the property is not a method of a class")
+        return
+    selfn, cls_fq = ps[0], f"{f.module.name}.{f.cls}"
+    decos = [dotted(d.func if isinstance(d, ast.Call) else d) or "?" for d in f.node.decorator_list]
+    by_deco = [d for d in decos if d.split(".")[-1] in _MEMO_DECORATORS]
+    if not memo and not by_deco:
+        ctx.ob("R5", "ALIAS", f, text, True, "the property assigns no instance attribute and carries no memoising decorator: the version is computed from the current attributes at every access")
+        return
+
+    def attrs_of(term, forks=()):
+        out = {n.attr for n in ast.walk(term) if _self_attr(n, selfn)} if term is not None else set()
+        for t in forks:
+            out |= set(re.findall(r"\b%s\.(\w+)" % re.escape(selfn), t))
+        return out
+
+    def later(t):  # abstract case "a result is stored": the stored attribute is not None
+        if isinstance(t, ast.Compare) and len(t.ops) == 1 and type(t.ops[0]) in (ast.Is, ast.IsNot, ast.Eq, ast.NotEq):
+            l, r = t.left, t.comparators[0]
+            if is_none(l):
+                l, r = r, l
+            if is_none(r) and _self_attr(l, selfn) and l.attr in memo:
+                return type(t.ops[0]) in (ast.IsNot, ast.NotEq)
+        return None
+
+    try:
+        reuse, partial = [], False
+        if by_deco:
+            reuse = [by_deco[0]]
+        else:
+            for sig, val, env in _SymExec(later).run(f.node.body):
+                if sig == "return" and val is not None and attrs_of(val) & memo:
+                    reuse.append("self." + sorted(attrs_of(val) & memo)[0])
+                    partial = partial or bool(attrs_of(None, env.get(_FORKS, ())) - memo)
+        if not reuse:
+            ctx.ob("R5", "ALIAS", f, text, True, f"the property assigns {sorted(memo)} but every access that returns recomputes the value: nothing stored is handed out")
+            return
+        deps = set()
+        for sig, val, env in _SymExec().run(f.node.body, {} if by_deco else env0):
+            if sig == "return":
+                deps |= attrs_of(val, env.get(_FORKS, ()))
+                for x in memo:
+                    if f"{selfn}.{x}" in env:
+                        deps |= attrs_of(env[f"{selfn}.{x}"])
+        deps -= memo
+    except _Unsupported as e:
+        ctx.undecided("R5", "ALIAS", f, text, f"the property body cannot be evaluated symbolically ({e})")
+        return
+    how = f"the @{by_deco[0]} decorator stores the first result" if by_deco else f"a later access returns the stored {reuse[0]} without recomputation"
+    if partial:
+        ctx.undecided("R5", "ALIAS", f, text, f"{how} only under conditions on other attributes: which inputs the reused value still depends on is not decided")
+        return
+    if memo and _attr_writers(ctx, cls_fq, memo, {f.fq, cls_fq + ".__init__"}):
+        ctx.undecided("R5", "ALIAS", f, text, f"{how}, and the store is reset elsewhere in the package: whether every change of {sorted(deps)} is followed by a reset is not decided")
+        return
+    methods = {m.qualname.split(".")[-1] for m in ctx.repo.methods(cls_fq)}
+    plain = {d for d in deps if d not in methods}
+    late = _attr_writers(ctx, cls_fq, plain, set())
+    if late:
+        y = sorted(late)[0]
+        ctx.ob("R5", "ALIAS", f, text, False,
+               f"{how}, but it was computed from {selfn}.{y}, a plain attribute that is assigned after construction (in {', '.join(late[y][:3])}): once the version has been read it no longer follows {y} "
+               f"(a stamp that becomes known later does not decide; the text, tuple and date reported are those of the earlier estimate)")
+    else:
+        ctx.undecided("R5", "ALIAS", f, text, f"{how}; it depends on {sorted(deps)}, none of which is assigned after construction inside the package - whether clients may change them is not decided")
+
+
 def _r5_precedence(ctx):
     f = ctx.repo.func("beacon.BeaconConfig.version")
     text = "version precedence"
@@ -1985,6 +2343,12 @@ def _r5_precedence(ctx):
     # none - never an estimate from the setting index; without a stamp the entry for the highest setting index, else 'Unknown'
     label = {"set": "export stamp present", "none": "no export stamp", "zero": "export stamp 0"}
     bad, seen = [], set()
+    # instance attributes the property itself assigns (a stored result): the precedence is analysed for the first access,
+    # i.e. with the value the constructor gives them; whether a *later* access may reuse the stored result is the separate
+    # obligation `version follows the current export stamp`
+    memo = _self_stores(f)
+    env0 = _constructed_values(ctx, f, memo)
+    _r5_freshness(ctx, f, memo, env0)
     try:
         for s in ("set", "none", "zero"):
             which, key = ("PE", STAMP) if s == "set" else ("MAX", ENUM)
@@ -1993,7 +2357,7 @@ def _r5_precedence(ctx):
                 want = ([(which, key)], _HIT) if hit else ([], "Unknown")
                 what = f"{label[s]}, {_TABLE_TEXT[which]} has {'an' if hit else 'no'} entry for {key}"
                 rewrite, decide = scenario(s, case)
-                outs = _SymExec(decide, rewrite).run(f.node.body)
+                outs = _SymExec(decide, rewrite).run(f.node.body, env0)
                 for sig, val, env in outs:
                     if sig == "raise":
                         continue
